@@ -1,4 +1,4 @@
-(* engine "hashmap": drives HashMap.mstep *)
+(* engine c18: argv.(1) = "hashmap" drives HashMap.mstep, "zones" drives ZoneMirror.zstep *)
 open Model
 open Zutil
 
@@ -12,7 +12,7 @@ let dump (m:hmap) =
     (if m.m_static then 1 else 0) (int_of_z m.m_size) (int_of_z m.m_usable) n (int_of_z m.m_used)
     (if m.m_static then "-" else idx) ents
 
-let run () =
+let run_hashmap () =
   let st = ref empty_map in
   let apply op =
     match mstep !st op with
@@ -32,3 +32,26 @@ let run () =
     | [""] -> ()
     | _ -> Printf.printf "badline %s\n" line
   done with End_of_file -> ())
+
+let run_zones () =
+  let st = ref empty_base in
+  let apply op = match zstep !st op with
+    | None -> print_string "outoffuel\n"
+    | Some (b, r) -> st := b; Printf.printf "r %d\n" (int_of_z r) in
+  (try while true do
+    let line = input_line stdin in
+    match String.split_on_char ' ' (String.trim line) with
+    | ["zw"; k; v] -> apply (ZWrite (bytes_of_hex k, z_of_int (int_of_string v)))
+    | ["zdel"; k] -> apply (ZDelete (bytes_of_hex k))
+    | ["reorder"; l] -> apply (ZReopen (if l = "-" then [] else List.map bytes_of_hex (String.split_on_char ',' l)))
+    | ["list"] -> Printf.printf "L %s\n" (if !st.zb_zones = [] then "-" else String.concat ","
+          (List.map (fun (n, p) -> Printf.sprintf "%s:%d" (hex_of_bytes n) (int_of_z p)) !st.zb_zones))
+    | [""] -> ()
+    | _ -> Printf.printf "badline %s\n" line
+  done with End_of_file -> ())
+
+let run () =
+  match Sys.argv.(1) with
+  | "hashmap" -> run_hashmap ()
+  | "zones" -> run_zones ()
+  | e -> prerr_endline ("unknown sub-engine " ^ e); exit 2
